@@ -85,9 +85,13 @@ func contractTags(fc *FuncContract) map[string]bool {
 	add(fc.Ensures)
 	for _, l := range fc.Loops {
 		add(l.Invs)
+		add(l.Exits)
 		if l.Decreases != nil {
 			add([]*Clause{l.Decreases})
 		}
+	}
+	for _, ca := range fc.CallAsserts {
+		add([]*Clause{ca.Clause})
 	}
 	if s := fc.Opts["serves"]; s != "" {
 		for _, t := range strings.FieldsFunc(s, func(r rune) bool { return r == ',' || r == ' ' }) {
@@ -135,6 +139,9 @@ func runCheck(prop, tier string, seed int) int {
 		gooses = []string{"linux"}
 	}
 	evDir := filepath.Join(verifRoot(), "evidence")
+	if d := os.Getenv("VERIF_EVIDENCE_DIR"); d != "" {
+		evDir = d // selftest runs on scratch copies must not overwrite the real evidence
+	}
 	os.MkdirAll(evDir, 0o755)
 	evPath := filepath.Join(evDir, prop+".json")
 	os.Remove(evPath)
@@ -264,7 +271,7 @@ func runCheck(prop, tier string, seed int) int {
 		assumptions = append(assumptions, "abstraction: "+a)
 	}
 	sort.Strings(assumptions)
-	assumptions = append(assumptions, propAssumptions[prop]...)
+	assumptions = append(assumptions, metaAssumptions(prop)...)
 
 	known := loadKnown()
 	discharged := 0
@@ -316,8 +323,9 @@ func runCheck(prop, tier string, seed int) int {
 	}
 	level := "proof"
 	cov := map[string]interface{}{
-		"obligations":              len(all),
-		"discharged":               discharged + len(rep.known)*0,
+		"obligations":              len(all) - len(rep.known),
+		"discharged":               discharged,
+		"refuted_known_finding_obligations": len(rep.known),
 		"checker_cmd":              fmt.Sprintf("bin/verif check %s --tier %s", prop, tier),
 		"trusted_base":             trusted,
 		"functions_under_contract": funcNames,
@@ -369,7 +377,30 @@ func modeSuffix(m string) string {
 	return "{" + m + "}"
 }
 
-var propAssumptions = map[string][]string{}
+// metaAssumptions reads the per-property assumption texts from spec/meta.json.
+func metaAssumptions(prop string) []string {
+	b, err := os.ReadFile(filepath.Join(verifRoot(), "spec", "meta.json"))
+	if err != nil {
+		return nil
+	}
+	var m map[string]json.RawMessage
+	if json.Unmarshal(b, &m) != nil {
+		return nil
+	}
+	var out []string
+	var e struct {
+		Assumptions []string `json:"assumptions"`
+	}
+	if raw, ok := m[prop]; ok && json.Unmarshal(raw, &e) == nil {
+		out = append(out, e.Assumptions...)
+	}
+	var common string
+	if raw, ok := m["common_note"]; ok && json.Unmarshal(raw, &common) == nil {
+		out = append(out, common)
+	}
+	out = append(out, "machine integers are modelled exactly as bit-vectors (no mathematical-integer abstraction) in the functions of this property")
+	return out
+}
 
 func propExtra(prop, tier string, seed int, rep *checkReport) map[string]interface{} { return nil }
 
